@@ -3,7 +3,7 @@ CONSTANTS
   ShtabBreaksDefaults = {"A", "B"}
   ClearOnError = TRUE
   Full = FALSE
-  Help = FALSE
+  Help = TRUE
   Emit = TRUE
 INVARIANT Balanced
 INVARIANT FramesExplainCtx
